@@ -680,6 +680,13 @@ func sameReadUpToCallOrder(a, b *OpResult) bool {
 func c14Read(sc *Scenario, data string, chunks []simrt.ReadStep, rest int, viaFile bool) (*Outcome, *OpResult) {
 	s2 := *sc
 	op := Op{Kind: "iniread", Chunks: chunks, Rest: rest}
+	if len(chunks) == 1 && chunks[0].N < 0 {
+		// positional failure: {N: -at, Err: kind or "kind+with"}
+		op.Chunks = nil
+		op.FailAt = -chunks[0].N
+		op.FailErr = strings.TrimSuffix(chunks[0].Err, "+with")
+		op.FailWith = strings.HasSuffix(chunks[0].Err, "+with")
+	}
 	if viaFile {
 		s2.World.Files = map[string]BStr{"in.ini": BStr(data)}
 		op.File = "in.ini"
@@ -702,16 +709,13 @@ func errorPlan(n, at int, kind string, withData bool) []simrt.ReadStep {
 	if at > n {
 		at = n
 	}
-	var steps []simrt.ReadStep
-	if withData {
-		steps = append(steps, simrt.ReadStep{N: at, Err: kind})
-	} else {
-		if at > 0 {
-			steps = append(steps, simrt.ReadStep{N: at})
-		}
-		steps = append(steps, simrt.ReadStep{N: 0, Err: kind})
+	if at < 1 {
+		at = 1
 	}
-	return steps
+	if withData {
+		kind += "+with"
+	}
+	return []simrt.ReadStep{{N: -at, Err: kind}}
 }
 
 func (propC14) Judge(sc *Scenario) *Verdict {
@@ -933,12 +937,25 @@ func (propC14) Judge(sc *Scenario) *Verdict {
 	if v.OK && v.NotJudged == "" && p.Source != "torn" {
 		text := p.currentText()
 		if p.ErrAt > 0 && len(text) > 0 {
-			r := run("read error", text, errorPlan(len(text), p.ErrAt, p.ErrKind, p.ErrWith), 0)
-			if r.ReaderErr != "" {
-				if r.Err != "" && r.Err != "flags.IniError" && r.Err != "flags.Error" {
+			at := p.ErrAt
+			if at > len(text) {
+				at = len(text)
+			}
+			r := run("read error", text, errorPlan(len(text), at, p.ErrKind, p.ErrWith), 0)
+			if v.OK && r.ReaderErr != "" {
+				// An I/O error may make the read fail, or cut the input short; it must
+				// never produce a result that neither the error nor the delivered
+				// prefix explains.
+				surfaced := r.Err != "" && r.Err != "flags.IniError" && r.Err != "flags.Error"
+				if surfaced {
 					v.stat("probe.read-error-surfaced")
 				} else {
 					v.stat("probe.read-error-masked")
+					pre := run("delivered prefix", text[:at], nil, 0)
+					if v.OK && !sameRead(pre, r) {
+						v.fail("c14:io-error-corrupts-result", fmt.Sprintf("a read error (%s after %d of %d bytes) did not surface, and the result differs from reading just the %d delivered bytes:\n  with error: %s\n  prefix only: %s\ninput prefix: %s",
+							p.ErrKind, at, len(text), at, readSummary(r), readSummary(pre), q(clip(text[:at], 800))))
+					}
 				}
 			}
 		}
